@@ -216,3 +216,33 @@ PROPS["C18"] = {
     "assumptions": [],
     "timeout": 3000,
 }
+
+# --------------------------------------------------------------------------------------------
+# Additional workloads shared by several properties. SYS = the end-to-end pipeline model
+# (Model/System.lean, Proofs/System.lean, Driver/Sys.lean, harness/drive/sys.go). Its judge's
+# violation clauses belong to one property each; a clause that is not listed counts for every
+# property the workload is attached to.
+PROPS_EXTRA = {
+    "SYS": {
+        "clauses": {
+            "forged_sender_e2e": "C01",
+            "replay_executed": "C02",
+            "phantom_tx": "C05",
+            "pending_lost": "C05",
+            "negative_balance_e2e": "C06",
+            "conservation_e2e": "C06",
+            "batch_not_robot": "C11",
+        },
+    },
+}
+
+_SYS_TEXT = " End to end (Proofs/System.lean): over every history of submissions, batches and task lists of the composed pipeline model (authentication + pending records + nonce windows + token bodies) "
+for _p, _t in (("C01", "every body that ran is backed by a request of the history carrying the required genuine signatures for exactly its sender and arguments (e2e_genuine_signatures)."),
+               ("C02", "no two bodies that ran on the batch or task routes have the same sender and nonce (e2e_replay_protected)."),
+               ("C05", "a batched submission only records; every stored record was written by an authenticated submission; a listed id is consumed whether it succeeds or fails; unknown ids touch nothing."),
+               ("C06", "with the token bodies no balance is negative and the units held equal the emission; the ledger is exactly the replay of the logged executions (e2e_conservation, e2e_ledger_is_log_replay)."),
+               ("C11", "batchExecute by anyone but the robot changes nothing on the composed pipeline (non_robot_batch_noop).")):
+    PROPS[_p]["modules"] = PROPS[_p]["modules"] + ["Foundation.Proofs.System"]
+    PROPS[_p]["also"] = ["SYS"]
+    PROPS[_p]["level_text"] += _SYS_TEXT + _t + " The composed model is tied to the code by histories on the real chaincode with balances, emission, pending ids and stored nonce windows read back from the ledger after every batch."
+    PROPS[_p]["trusted_base"] = PROPS[_p]["trusted_base"] + ["end-to-end pipeline: core/cc_core.go BatchHandler/noBatchHandler, cc_batch.go batchedTxExecute/loadFromBatch, task_executor.go ExecuteTask modelled by Foundation.System.step (method table: transfer, emit, transferNb)"]
